@@ -238,6 +238,36 @@ def add_overlapping_cycles(rng, table, root=0):
     return table
 
 
+def add_cycle_with_common_predecessor(rng, table):
+    """Hostile shape: a directed cycle of one-way single-child rows over 2-3 labels and one
+    further label with a one-way single-child row to *every* label of the cycle (a depth-first
+    cycle detection meets the cycle's labels as siblings), rows in random positions."""
+    rows, n = table["rows"], table["n"]
+    if n < 3:
+        return table
+    labs = rng.sample(range(n), min(n, rng.randint(3, 4)))
+    pred, cyc = labs[0], labs[1:]
+    edges = list(zip(cyc, cyc[1:] + cyc[:1])) + [(pred, c) for c in cyc]
+    for a, b in edges:
+        rows.insert(rng.randrange(len(rows) + 1), [a, [b], [0], False, rng.random() < 0.3])
+    return table
+
+
+def add_sibling_cycle_gadget(rng, table, root=0):
+    """Hostile shape on fresh labels: a cycle c1 -> c2 -> c1 of one-way single-child rows and
+    a class P with one-way rows to both, discovered through c1 *after* c2 (so P's rows are
+    recorded last and a cycle detection starting from the latest class meets c1 and c2 as
+    siblings).  The root gets a further row through c1; c1 also has a size-reducing row."""
+    rows, n = table["rows"], table["n"]
+    c1, c2, pred, leaf = n, n + 1, n + 2, n + 3
+    table["n"] = n + 4
+    rows.insert(rng.randrange(len(rows) + 1), [root, [c1, leaf], [1, 1], False, False])
+    rows += [[c1, [c2], [0], False, False], [c1, [pred, leaf], [1, 1], False, False],
+             [c2, [c1], [0], False, False], [pred, [c1], [0], False, False], [pred, [c2], [0], False, False],
+             [leaf, [], [], False, False]]
+    return table
+
+
 def add_twin_unary_rows(rng, table, k=None):
     """Hostile shape for the rule databases: for k unary rows add a twin between the same
     two labels with the opposite two-way flag, in either orientation, at a random position
@@ -312,10 +342,24 @@ def complement_universe(rng):
     kids = []
     for _ in range(k):
         v, x, a = fresh(), fresh(), fresh()
+        sh = rng.choice((0, 0, 1))
+        sub_rows = [[x, [v, a], [0, sh], False, True], [a, [], [], False, False]]
+        if rng.random() < 0.3:
+            # the row to be read backwards is itself a rule of the specification being expanded
+            # (X -> (V, A) is how the original search reached V) and the offered pack finds it
+            # again, together with another row that enumerates X (V is a child of the root as
+            # well: a new rule for X does not make it dispensable)
+            kids += [x, v]
+            rows += [[v, [], [], False, False], [a, [], [], False, False], [x, [v, a], [0, sh], False, True]]
+            zbad, p_, q_ = fresh(), fresh(), fresh()
+            sub_rows += [[v, [zbad, x], [1, 0], False, False], [x, [p_, q_], [0, 1], False, False],
+                         [p_, [], [], False, False], [q_, [], [], False, False]]
+            rng.shuffle(sub_rows)
+            packs[v] = {"n": nxt[0], "rows": sub_rows, "empties": [], "foreign": rng.random() < 0.5}
+            continue
         kids += [v, x]
         rows.append([v, [], [], False, False])
         rows.append([x, [], [], False, False])
-        sub_rows = [[x, [v, a], [0, rng.choice((0, 0, 1))], False, True], [a, [], [], False, False]]
         indirect = rng.random() < 0.4
         if indirect:
             # the row about X is only found by expanding X itself (no foreign-row factory): V's own
